@@ -405,6 +405,9 @@ func (r *Runner) cmd(ctx context.Context, cm syntax.Command) {
 		r.stmts(ctx, cm.Stmts)
 	case *syntax.Subshell:
 		r2 := r.subshell(false)
+		// A subshell in a condition, a negation or the left side of
+		// a list keeps ignoring errexit, like Bash does.
+		r2.noErrExit = r.noErrExit
 		r2.stmts(ctx, cm.Stmts)
 		r2.exit.exiting = false // subshells don't exit the parent shell
 		r.exit = r2.exit
